@@ -163,6 +163,22 @@ Theorem C18_softqueue_front_value_and_index :
         snd r = Z.of_nat (ls_done V (fst (lsoft_run V zero eqb (lsoft_new V) ops))))).
 Proof. intros V zero eqb. apply sq_front_answer. Qed.
 
+(** Values() hands out a value, not the queue's storage: the call leaves the state unchanged, and
+    a Values call inserted anywhere in a history changes no other output and no later state —
+    so nothing the caller does to the result (overwrite, sort, append) can be observed through the
+    queue.  (The Go side of this — the returned slice is a copy — is checked by the harness's
+    aliasing probe [W], which scribbles over the returned slice and re-runs every observer.) *)
+Theorem C18_softqueue_values_independent :
+  forall (V : Type) (zero : V) (eqb : V -> V -> bool) (q : softq V) (ops1 ops2 : list (sop V)),
+    sq_step V zero eqb q SValues = Ok (q, SOVals (sq_values V q)) /\
+    sq_run_from V zero eqb q (ops1 ++ SValues :: ops2)
+    = bind (sq_run_from V zero eqb q ops1) (fun r1 =>
+      bind (sq_run_from V zero eqb (fst r1) ops2) (fun r2 =>
+        Ok (fst r2, snd r1 ++ SOVals (sq_values V (fst r1)) :: snd r2))).
+Proof.
+  intros V zero eqb q ops1 ops2. split; [apply sq_values_step | apply sq_values_transparent].
+Qed.
+
 (** Contains (which by design also sees the dequeued values) returns -1 iff no value ever enqueued
     is [eqb]-equal to the argument, and otherwise the first position in Values() holding one. *)
 Theorem C18_softqueue_contains_first_position :
@@ -238,6 +254,7 @@ Print Assumptions C18_stack_observers.
 Print Assumptions C18_softqueue_refines.
 Print Assumptions C18_softqueue_enqueue_index_is_stable.
 Print Assumptions C18_softqueue_front_value_and_index.
+Print Assumptions C18_softqueue_values_independent.
 Print Assumptions C18_softqueue_contains_first_position.
 Print Assumptions C18_D18_unfixed_code_refuted.
 Print Assumptions C18_D18_unfixed_code_panics_for_every_block_size.
